@@ -127,6 +127,9 @@ def h_rest_hist_persistence_filecache_filecache_go : Nat := 0xed8caf81e75741d8
 /-- hash of the normalised skeleton of * (internal/persistence/model/status.go) -/
 def h_rest_hist_persistence_model_status_go : Nat := 0xa99de046e51c60df
 
+/-- hash of the normalised skeleton of * (internal/persistence/model/node.go) -/
+def h_rest_hist_persistence_model_node_go : Nat := 0x42fc9e336bdfd1bb
+
 def dateFormat : List String := ["\"20060102\""]
 
 def dateTimeFormat : List String := ["\"20060102.15:04:05.000\""]
